@@ -47,6 +47,8 @@ def import_dds():
     if sys.path[0] != REPO:
         sys.path.insert(0, REPO)
     os.environ.setdefault("DDS_PY_VERIF", "1")
+    import logging
+    logging.getLogger("dds").setLevel(logging.ERROR)
     import dds  # noqa
 
     assert os.path.realpath(dds.__file__).startswith(os.path.realpath(REPO) + os.sep), dds.__file__
